@@ -13,6 +13,7 @@ import (
 	"os/exec"
 	"reflect"
 	"sort"
+	"strings"
 	"sync"
 )
 
@@ -284,6 +285,13 @@ func (r *Runner) reader() {
 		if model == nil {
 			model = ans.Out
 		}
+		// a recovered panic of the implementation where the model returns: a concrete failing input whatever else differs
+		if pv, has := findPanic(c.Impl); has && c.K != "conc" {
+			if _, mhas := findPanic(model); !mhas {
+				r.addProblem(&Problem{Kind: "impl-panic", Clause: "implementation_panicked_where_the_model_returns", Case: c, Model: model, Detail: pv})
+				continue
+			}
+		}
 		if ok, where := subsetEqual(c.Impl, model); !ok {
 			r.addProblem(&Problem{Kind: "disagree", Clause: where, Case: c, Model: model})
 		}
@@ -307,4 +315,35 @@ func (r *Runner) Finish(path string) *Summary {
 	}
 	fmt.Fprintf(os.Stderr, "[%s] evaluations=%d distinct=%d problems=%d classes=%d\n", r.prop, r.sum.Evaluations, r.sum.Distinct, r.sum.ProblemCount, len(r.sum.Classes))
 	return r.sum
+}
+
+// findPanic: a member named "panic" / "..._panic" with a value, or {"o": "panic"}, anywhere in v
+func findPanic(v any) (string, bool) {
+	switch x := v.(type) {
+	case map[string]any:
+		for k, e := range x {
+			if (k == "panic" || strings.HasSuffix(k, "_panic")) && e != nil && e != false {
+				return fmt.Sprint(e), true
+			}
+			if k == "o" && e == "panic" {
+				return fmt.Sprint(x["detail"]), true
+			}
+			if s, ok := findPanic(e); ok {
+				return s, true
+			}
+		}
+	case []any:
+		for _, e := range x {
+			if s, ok := findPanic(e); ok {
+				return s, true
+			}
+		}
+	case []map[string]any:
+		for _, e := range x {
+			if s, ok := findPanic(e); ok {
+				return s, true
+			}
+		}
+	}
+	return "", false
 }
